@@ -334,7 +334,8 @@ struct CppWorld : World {
                 else if (k < 83) { int j = (int)r.below(NH); pl.add("hassign", {j, h}); if (hlive[j] && hkind[j] == hkind[h]) hfinished[j] = hfinished[h]; }
                 else if (k < 88) pl.add("hpad", {h});
                 else if (k < 93) { pl.add("hreset", {h}); hfinished[h] = false; }
-                else if (k < 96) pl.add("hdigest", {(int64_t)r.below(2), (int64_t)pick_len(r), (int64_t)(r.next() >> 1)});
+                else if (k < 95) pl.add("hdigest", {(int64_t)r.below(2), (int64_t)pick_len(r), (int64_t)(r.next() >> 1)});
+                else if (k < 97) pl.add("helper", {(int64_t)r.below(8), (int64_t)r.pickv({0, 1, 2, 7, 16, 33, 100}), (int64_t)r.below(6), (int64_t)(r.next() >> 1)});
                 else { pl.add("hdel", {h}); hlive[h] = false; }
             }
         }
@@ -658,6 +659,39 @@ struct CppWorld : World {
                 uint8_t a[32], b[32];
                 if (op.u(0) & 1) { ascon::hasha::digest(a, ptr(d), n); ascon_hasha(b, ptr(d), n); } else { ascon::hash::digest(a, ptr(d), n); ascon_hash(b, ptr(d), n); }
                 if (record && memcmp(a, b, 32) != 0) viol(c, "equals_c_api", (op.u(0) & 1) ? "hasha::digest" : "hash::digest", fmt("n=%zu", n));
+            } else if (nm == "helper") {
+                // the byte-array helper functions of utility.h against the C functions they wrap (C17: "returns exactly
+                // what the corresponding C function returns")
+                size_t n = (size_t)(op.u(1) % 300);
+                int shape = (int)(op.u(2) % 6); // 0 clean, 1 white space inside, 2 an illegal character, 3 odd digit count, 4 upper case, 5 empty
+                Bytes d = bytes_of(shape == 5 ? 0 : n, op.u(3));
+                bool upper = (op.u(0) & 1) != 0;
+                // C reference encoding
+                std::vector<char> cbuf(2 * d.size() + 1);
+                int cl = ascon_bytes_to_hex(cbuf.data(), cbuf.size(), ptr(d), d.size(), upper);
+                std::string chex(cbuf.data(), cl < 0 ? 0 : (size_t)cl);
+                ascon::byte_array dv = ascon::bytes_from_data(ptr(d), d.size());
+                if (record && Bytes(dv.begin(), dv.end()) != d) viol(c, "equals_c_api", "bytes_from_data", fmt("n=%zu", d.size()));
+                std::string h1 = ascon::bytes_to_hex(ptr(d), d.size(), upper), h2 = ascon::bytes_to_hex(dv, upper);
+                if (record && (h1 != chex || h2 != chex)) viol(c, "equals_c_api", "bytes_to_hex", fmt("n=%zu upper=%d: C function gives %zu characters, helpers %zu/%zu", d.size(), (int)upper, chex.size(), h1.size(), h2.size()));
+                // a text derived from the encoding, decoded by the C function and by the three helper overloads
+                std::string text = chex;
+                Rng tr(op.u(3) ^ 0x7e);
+                if (shape == 1) for (int k = 0; k < 3; ++k) text.insert(text.begin() + (long)tr.below(text.size() + 1), " \t\n\r\f\v"[tr.below(6)]);
+                if (shape == 2) { char bad = "gG:@/`xz-_"[tr.below(10)]; if (text.empty()) text += bad; else text[tr.below(text.size())] = bad; }
+                if (shape == 3) text += 'a';
+                if (shape == 4) for (auto &ch : text) ch = (char)(tr.chance(1, 2) ? toupper((unsigned char)ch) : tolower((unsigned char)ch));
+                std::vector<unsigned char> cout(text.size() / 2 + 1);
+                int dl = ascon_bytes_from_hex(cout.data(), cout.size(), text.data(), text.size());
+                Bytes want = dl < 0 ? Bytes() : Bytes(cout.begin(), cout.begin() + dl); // documented: empty array for invalid input
+                ascon::byte_array v1 = ascon::bytes_from_hex(text.data(), text.size()), v2 = ascon::bytes_from_hex(text.c_str()), v3 = ascon::bytes_from_hex(text);
+                if (record) {
+                    if (Bytes(v1.begin(), v1.end()) != want) viol(c, "equals_c_api", "bytes_from_hex(ptr,len)", fmt("shape=%d: helper %zu bytes, C function %d", shape, v1.size(), dl));
+                    if (Bytes(v2.begin(), v2.end()) != want) viol(c, "equals_c_api", "bytes_from_hex(cstr)", fmt("shape=%d: helper %zu bytes, C function %d", shape, v2.size(), dl));
+                    if (Bytes(v3.begin(), v3.end()) != want) viol(c, "equals_c_api", "bytes_from_hex(std::string)", fmt("shape=%d: helper %zu bytes, C function %d", shape, v3.size(), dl));
+                    run.fold_bytes(want);
+                    run.state(fmt("helper/%d/%d", shape, dl < 0));
+                }
             } else if (nm == "hdel") h_del(c, (int)(op.u(0) % NH));
         }
         for (int i = 0; i < NC; ++i) c_del(c, i, false);
